@@ -267,6 +267,9 @@ let do_membership o nw v =
   let cf l = List.map (fun x -> (x, N0)) (names_of l) in
   let m = membership_changed p (cf o) (cf nw) in
   if m then incr nmem_changed;
+  (* extraction re-validation (util.ml): the model's two answers for a sampled pair, as a Coq term *)
+  if vm_pick !nmem then
+    Printf.printf "VMCASE\tM\t%s\t%s\t(%s, %s)\n" o nw (coq_bool m) (coq_bool (same_name_set p (cf o) (cf nw)));
   (* pairs on which the code's answer differs from set equality (only possible with duplicates) *)
   if m = same_name_set p (cf o) (cf nw) then incr nmem_dupdiff;
   let iv = (match v with "1" -> Some true | "0" -> Some false | _ -> None) in
